@@ -5,7 +5,7 @@
    written but not yet listed is invisible to the scan.  A crash at state [s] followed by a reopen is [do_recover c s vis]
    ([vis]: what the scan sees of the device; memory, the write queue and the flusher pipeline are lost). *)
 From Coq Require Import List NArith Bool.
-From FV Require Import Hybrid.Engine Hybrid.EngineInv Hybrid.EngineThms Hybrid.EngineVers.
+From FV Require Import Hybrid.Engine Hybrid.EngineInv Hybrid.EngineThms Hybrid.EngineVers Hybrid.EngineMono.
 Import ListNotations.
 Open Scope N_scope.
 
@@ -49,6 +49,16 @@ Theorem c04_winner_not_older : forall s vis v0 sq0 b0,
   In (v0, sq0, b0) (visible vis (kdisk s)) -> exists e, best_of s vis = Some e /\ sq0 <= iseq e.
 Proof. exact winner_at_least. Qed.
 Print Assumptions c04_winner_not_older.
+
+(* ... and version order follows sequence order (invariant MInv), so: a copy the scan sees - in particular the copy of
+   an acknowledged write - is never beaten by an OLDER version; the key then reads as that version, a newer one, or a miss
+   (a later delete won, or the winner's bytes do not verify) *)
+Theorem c04_never_an_older_version : forall c l vis v0 sq0 b0 v,
+  bug_rr c = false -> run_ok c init_k l ->
+  In (v0, sq0, b0) (visible vis (kdisk (krun c init_k l))) ->
+  lookup_now (do_recover c (krun c init_k l) vis) = Some v -> v0 <= v.
+Proof. exact recovery_never_older. Qed.
+Print Assumptions c04_never_an_older_version.
 
 (* versions written after a restart supersede versions from before it: the counter restarts above everything
    recovered, so the theorems above hold across any number of crash / restart cycles ([KRestart] is a step of
